@@ -543,6 +543,22 @@ def r14_4(ctx: Ctx) -> None:
                 ctx.record("R14.4", f"{s.path}::{s.owner}::{cd} <- {dur}", s.where, ok,
                            f"loaded from {unparse(v)[:50]}" + ("" if ok else f" - expected {dur_recv[0]}.{dur} inside {start}"))
     ctx.floor("R14.4", "countdown loads", n_load, 4)
+    # a folder's scan / restore timer is armed only when it is not running: a repeated request while the operation is in progress
+    # must not push its completion back ("completes after the configured duration" counts from the first request)
+    for cd in ("scan_countdown", "restore_countdown"):
+        cls_name, start, dur, dur_recv, tick = TIMERS[cd]
+        f = ix.method(start)
+        g = CFG(f.node)
+        ld = LocalDefs(f.node)
+        loads = [x for x in g.nodes if x.kind == "stmt" and isinstance(x.ast, ast.Assign) and any(
+            isinstance(t, ast.Attribute) and t.attr == cd for t in x.ast.targets) and not isinstance(x.ast.value, ast.Constant)]
+        if not loads:
+            raise AnalysisError(f"R14.4: {start} does not load {cd}")
+        for x in loads:
+            p = g.path_avoiding([x], lambda e: _elapsed_edge(e, cd, ld))
+            ctx.record("R14.4", ctx.key(f, f"{cd} is armed only when it has run out"), f.loc(x.ast), p is None,
+                       f"the load of {cd} is reached only on the `{cd} <= 0` edge" if p is None else
+                       f"{cd} can be re-armed while it is still running: every repeated request postpones the completion", path_text(p))
     # ---- fix
     fx = ix.method("Software.fix")
     fx_node = _inline_state_aliases(fx.node, "health_state_actual", "R14.4 Software.fix")
